@@ -286,7 +286,7 @@ class ChargingNetwork(BaseSimObj):
         # constraint_frame.
         self.constraint_matrix = constraint_frame.reindex(
             columns=self.station_ids
-        ).to_numpy()
+        ).to_numpy(copy=True)
         # Cached information-storing objects for use by Interface.
         _ = self._update_info_store()
 
